@@ -303,6 +303,10 @@ class SSet(Sym):
     @staticmethod
     def define(name, sort, pred):
         """the set { v | pred(v) }"""
+        if C.binder:
+            # under a binder nothing may be a fresh constant: the set is the lambda term itself
+            q = bv("v!df", sort)
+            return SSet(sort, z3.Lambda([q], pred(q)), C.fresh("c_" + name, I), name)
         s = SSet.fresh(name, sort)
         v = bv("v!d", sort)
         C.assume(z3.ForAll([v], s.a[v] == pred(v)))
@@ -343,6 +347,9 @@ class SSet(Sym):
 
     def copy(self):
         return SSet(self.sort, self.a, self.c, self.name)
+
+    def _vc_subst(self, v, w):
+        return SSet(self.sort, z3.substitute(self.a, (v, w)), self.c, self.name)
 
     def issubset(self, o):
         o = as_set(o, self.sort)
@@ -503,6 +510,12 @@ class SList(Sym):
 
     def as_set(self):
         return self.s.copy()
+
+    def _vc_parts(self):
+        return (self.s,)
+
+    def _vc_subst(self, v, w):
+        return SList(self.s._vc_subst(v, w), self.length)
 
     def _vc_contains(self, x):
         return self.s._vc_contains(x)
@@ -996,3 +1009,47 @@ def vc_tuple(it=()):
     if isinstance(it, Sym):
         raise Unsupported(f"tuple() of {type(it).__name__}")
     return tuple(it)
+
+
+setsum = z3.Function("setsum", z3.ArraySort(Id, I), SetSort(Id), I)  # sum over a finite SET of node ids (order free: lemma L3)
+
+
+def vc_any(it):
+    if not hasattr(it, "_vc_iter"):
+        r = False
+        for e in it:
+            if isinstance(e, SBool):
+                r = e if r is False else (r | e)
+            elif e:
+                return True
+        return r
+    col = it._vc_iter()
+    v = bv("v!any", col.sort)
+    e = col.elem(v)
+    return SBool(z3.Exists([v], z3.And(col.pred(v), tb(vc_bool(e)))))
+
+
+def vc_all(it):
+    if not hasattr(it, "_vc_iter"):
+        r = True
+        for e in it:
+            if isinstance(e, SBool):
+                r = e if r is True else (r & e)
+            elif not e:
+                return False
+        return r
+    col = it._vc_iter()
+    v = bv("v!all", col.sort)
+    e = col.elem(v)
+    return SBool(z3.ForAll([v], z3.Implies(col.pred(v), tb(vc_bool(e)))))
+
+
+def vc_sum(it, start=0):
+    if not hasattr(it, "_vc_iter"):
+        return sum(it, start)
+    col = it._vc_iter()
+    if col.sort != Id or not col.distinct:
+        raise Unsupported("sum over something else than a set of node ids")
+    v = bv("v!sum", Id)
+    e = col.elem(v)
+    return SInt(setsum(z3.Lambda([v], ti(e)), z3.Lambda([v], col.pred(v)))) + start
